@@ -581,6 +581,27 @@ func ruleArrBound(c *Ctx) {
 		}
 	}
 	if grow == nil {
+		// the growth helper may work in place on the header: (rc).grow(sh *sliceHeader, n int)
+		for _, cs := range callsIn(fn) {
+			h := cs.Static
+			if h == nil || !P.isModuleFunc(h) || h.Signature.Recv() == nil || h.Blocks == nil {
+				continue
+			}
+			var hp, np *ssa.Parameter
+			for _, p := range h.Params[1:] {
+				if typeKey(p.Type()) == "*avro.sliceHeader" {
+					hp = p
+				} else if isBasicKind(p.Type(), types.Int) {
+					np = p
+				}
+			}
+			call, _ := cs.Instr.(*ssa.Call)
+			if hp != nil && np != nil && call != nil {
+				arrElementStores(c, P, fn, key, rd)
+				arrBoundInPlace(c, P, fn, key, rd, cl, l, n, call, h, hp, np)
+				return
+			}
+		}
 		c.Bad(key+"/grow-before-items", P.pos(rd.Pos()), "no growth of the destination slice precedes the item loop")
 		return
 	}
@@ -595,61 +616,7 @@ func ruleArrBound(c *Ctx) {
 			}
 		}
 	}
-	// who may touch the element storage: pointers derived from the header's Data go nowhere but into the
-	// item codec's Read as its destination
-	{
-		seenV := map[ssa.Value]bool{}
-		var work []ssa.Value
-		for _, b := range fn.Blocks {
-			for _, in := range b.Instrs {
-				if ld, ok := in.(*ssa.UnOp); ok && ld.Op == token.MUL {
-					if fa, ok := ld.X.(*ssa.FieldAddr); ok && isUnsafePointer(ld.Type()) && typeKey(fa.X.Type()) == "*avro.sliceHeader" {
-						work = append(work, ld)
-					}
-				}
-			}
-		}
-		nUse, bad := 0, ""
-		for len(work) > 0 {
-			v := work[len(work)-1]
-			work = work[:len(work)-1]
-			if seenV[v] {
-				continue
-			}
-			seenV[v] = true
-			for _, r := range referrersOf(v) {
-				switch x := r.(type) {
-				case *ssa.DebugRef:
-				case *ssa.Convert:
-					if isUnsafePointer(x.Type()) || isBasicKind(x.Type(), types.Uintptr) {
-						work = append(work, x)
-					} else {
-						bad = "the element storage is reinterpreted as " + x.Type().String() + " at " + P.pos(x.Pos())
-					}
-				case *ssa.BinOp:
-					work = append(work, x)
-				case *ssa.Phi:
-					work = append(work, x)
-				case *ssa.Call:
-					switch {
-					case isBuiltinCall(x, "Add"):
-						work = append(work, x)
-					case x.Call.IsInvoke() && x.Call.Method.Name() == "Read" && isCodecIface(P, x.Call.Value.Type()) && len(x.Call.Args) == 2 && x.Call.Args[1] == v:
-						nUse++
-					default:
-						bad = "a pointer into the element storage is handed to " + strings.ReplaceAll(x.Call.Value.String(), "github.com/philpearl/", "") + " at " + P.pos(x.Pos())
-					}
-				case *ssa.Store:
-					if x.Val == v {
-						bad = "a pointer into the element storage is stored at " + P.pos(x.Pos())
-					}
-				default:
-					bad = fmt.Sprintf("a pointer into the element storage is used by %T at %s", r, P.pos(r.Pos()))
-				}
-			}
-		}
-		c.Check(bad == "" && nUse > 0, key+"/element-stores", P.pos(rd.Pos()), "pointers into the slice's element storage are used only as the destination of the item codec's Read (one element, the element type's stride)", "elements are written other than one at a time by the item codec: "+bad+": the bytes written need not match the element type's size")
-	}
+	arrElementStores(c, P, fn, key, rd)
 	okArg := arg == n && grow.Block().Dominates(cl.Header) && !l.Blocks[grow.Block()]
 	c.Check(okArg && stored, key+"/grow-by-trip-count", P.pos(grow.Pos()), "the slice is grown by exactly the item loop's trip count, once per block, and the grown header is the one the items are stored through", "the slice is grown by a different amount than the number of items the loop then stores (or into a different header): items are written past the capacity of the backing array")
 	// the helper: returns its input only under Len+n <= Cap; otherwise a header whose Cap is Len+n
@@ -1040,4 +1007,148 @@ func ruleRecList(c *Ctx) {
 		}
 	}
 	c.Check(nAppend == 1, "record-codec/list-built-once", "-", "exactly one place appends to the field list", fmt.Sprintf("%d places append to the record codec's field list", nAppend))
+}
+
+// arrBoundInPlace decides ARR-BOUND's growth clauses for a helper that grows
+// the header in place: it is called once per block, before the item loop,
+// with the header the items are stored through and the loop's trip count;
+// it returns without touching the header only where Len+n <= Cap, and
+// otherwise stores a header whose array and Cap are both sized Len+n.
+func arrBoundInPlace(c *Ctx, P *Program, fn *ssa.Function, key string, rd *ssa.Call, cl *Counted, l *Loop, n ssa.Value, call *ssa.Call, h *ssa.Function, hp, np *ssa.Parameter) {
+	var hdrArg, nArg ssa.Value
+	for i, p := range h.Params {
+		if p == hp {
+			hdrArg = call.Call.Args[i]
+		}
+		if p == np {
+			nArg = stripConv(call.Call.Args[i])
+		}
+	}
+	hdr := accessPath(hdrArg)
+	stored := hdr != "" && exprMentions(rd.Call.Args[1], hdr+"->Data", 0)
+	okArg := nArg == n && call.Block().Dominates(cl.Header) && !l.Blocks[call.Block()]
+	c.Check(okArg && stored, key+"/grow-by-trip-count", P.pos(call.Pos()), "the slice is grown (in place) by exactly the item loop's trip count, once per block, through the header the items are stored through", "the slice is grown by a different amount than the number of items the loop then stores (or into a different header): items are written past the capacity of the backing array")
+	hk := fnKey(h)
+	// needed = sh.Len + n
+	isNeeded := func(v ssa.Value) bool {
+		bo, ok := stripConv(v).(*ssa.BinOp)
+		if !ok || bo.Op != token.ADD {
+			return false
+		}
+		isLen := func(x ssa.Value) bool {
+			ld, ok := x.(*ssa.UnOp)
+			if !ok || ld.Op != token.MUL {
+				return false
+			}
+			fa, ok := ld.X.(*ssa.FieldAddr)
+			return ok && fa.X == ssa.Value(hp) && fieldName(fa.X.Type(), fa.Field) == "Len"
+		}
+		return isLen(bo.X) && bo.Y == ssa.Value(np) || isLen(bo.Y) && bo.X == ssa.Value(np)
+	}
+	isCap := func(v ssa.Value) bool {
+		ld, ok := v.(*ssa.UnOp)
+		if !ok || ld.Op != token.MUL {
+			return false
+		}
+		fa, ok := ld.X.(*ssa.FieldAddr)
+		return ok && fa.X == ssa.Value(hp) && fieldName(fa.X.Type(), fa.Field) == "Cap"
+	}
+	// the store of the grown header
+	var grownStore *ssa.Store
+	for _, b := range h.Blocks {
+		for _, in := range b.Instrs {
+			if st, ok := in.(*ssa.Store); ok && st.Addr == ssa.Value(hp) {
+				grownStore = st
+			}
+		}
+	}
+	okKeep, okNew := grownStore != nil, false
+	for _, r := range returnsOf(h) {
+		if grownStore != nil && dominatesInstr(grownStore, r) {
+			continue
+		}
+		// returning without a new header: only where needed <= Cap
+		fact := false
+		for _, cmp := range cmpFactsAt(r.Block()) {
+			if cmp.Op == token.LEQ && isNeeded(cmp.X) && isCap(cmp.Y) || cmp.Op == token.GEQ && isCap(cmp.X) && isNeeded(cmp.Y) {
+				fact = true
+			}
+		}
+		if !fact {
+			okKeep = false
+		}
+	}
+	if grownStore != nil {
+		if ld, ok := grownStore.Val.(*ssa.UnOp); ok && ld.Op == token.MUL {
+			if lit, ok := ld.X.(*ssa.Alloc); ok {
+				lf := literalFields(lit)
+				capOK := lf["Cap"] != nil && isNeeded(lf["Cap"])
+				arrOK := false
+				if na, ok := lf["Data"].(*ssa.Call); ok && na.Call.StaticCallee() != nil && na.Call.StaticCallee().Name() == "unsafe_NewArray" && isNeeded(na.Call.Args[1]) {
+					arrOK = true
+				}
+				okNew = capOK && arrOK
+			}
+		}
+	}
+	c.Check(okKeep && okNew, hk+"/capacity", P.pos(h.Pos()), "leaves the header alone only where Len+n <= Cap, otherwise installs a new array of exactly Len+n elements with Cap = Len+n", "the growth helper can leave (or install) a slice whose capacity is below Len+n")
+}
+
+// arrElementStores: ARR-BOUND's who-may-write clause for the element storage.
+func arrElementStores(c *Ctx, P *Program, fn *ssa.Function, key string, rd *ssa.Call) {
+	// who may touch the element storage: pointers derived from the header's Data go nowhere but into the
+	// item codec's Read as its destination
+	{
+		seenV := map[ssa.Value]bool{}
+		var work []ssa.Value
+		for _, b := range fn.Blocks {
+			for _, in := range b.Instrs {
+				if ld, ok := in.(*ssa.UnOp); ok && ld.Op == token.MUL {
+					if fa, ok := ld.X.(*ssa.FieldAddr); ok && isUnsafePointer(ld.Type()) && typeKey(fa.X.Type()) == "*avro.sliceHeader" {
+						work = append(work, ld)
+					}
+				}
+			}
+		}
+		nUse, bad := 0, ""
+		for len(work) > 0 {
+			v := work[len(work)-1]
+			work = work[:len(work)-1]
+			if seenV[v] {
+				continue
+			}
+			seenV[v] = true
+			for _, r := range referrersOf(v) {
+				switch x := r.(type) {
+				case *ssa.DebugRef:
+				case *ssa.Convert:
+					if isUnsafePointer(x.Type()) || isBasicKind(x.Type(), types.Uintptr) {
+						work = append(work, x)
+					} else {
+						bad = "the element storage is reinterpreted as " + x.Type().String() + " at " + P.pos(x.Pos())
+					}
+				case *ssa.BinOp:
+					work = append(work, x)
+				case *ssa.Phi:
+					work = append(work, x)
+				case *ssa.Call:
+					switch {
+					case isBuiltinCall(x, "Add"):
+						work = append(work, x)
+					case x.Call.IsInvoke() && x.Call.Method.Name() == "Read" && isCodecIface(P, x.Call.Value.Type()) && len(x.Call.Args) == 2 && x.Call.Args[1] == v:
+						nUse++
+					default:
+						bad = "a pointer into the element storage is handed to " + strings.ReplaceAll(x.Call.Value.String(), "github.com/philpearl/", "") + " at " + P.pos(x.Pos())
+					}
+				case *ssa.Store:
+					if x.Val == v {
+						bad = "a pointer into the element storage is stored at " + P.pos(x.Pos())
+					}
+				default:
+					bad = fmt.Sprintf("a pointer into the element storage is used by %T at %s", r, P.pos(r.Pos()))
+				}
+			}
+		}
+		c.Check(bad == "" && nUse > 0, key+"/element-stores", P.pos(rd.Pos()), "pointers into the slice's element storage are used only as the destination of the item codec's Read (one element, the element type's stride)", "elements are written other than one at a time by the item codec: "+bad+": the bytes written need not match the element type's size")
+	}
 }
